@@ -689,20 +689,20 @@ func runC15(c *Ctx) int {
 		c.Inconclusive("no compaction committed inside a nested source / no CLI run")
 	}
 	cov := map[string]any{
-		"evaluations":                         tot.Compactions + tot.CLIRuns,
-		"distinct_nontrivial":                 len(nontriv),
-		"rule":                                "sources: generated API programs (profiles buckets/mixed/big/structural, nesting up to 5), 'twins' programs (same-named buckets at the same depth under different parents, with and without plain keys between them in walk order, empty/inline/paged, two levels) and hand-shaped deep programs (nesting up to 6, empty buckets, empty/nil/multi-page values, inline and paged buckets, sequences up to 2^64-1 at every level), 4 page sizes, both backends; each source x limits {derived: cumulative walk size at items inside nested buckets, total, total-1, total/2+1; fixed: 1,0,65536,7,64,2,2^20,4096,3,512,2^14} through bolt.Compact (destination page size/backend varied, source opened read-only or read-write) and through the freshly built `bbolt compact`. Oracle: destination dump == source dump == model M (sequences included), Tx.Check and D clean on the destination, source SHA-256 unchanged, CLI exit 0 and expected output on success, non-zero on missing/non-database source and unwritable destination. Non-trivial: source has nested buckets and >= 5 keys; distinct = (source shape: depth, empty bucket/value, nested sequence, inline, overflow, paged; limit class; via; number of destination commits; page size).",
-		"samples":                             samples,
-		"sources":                             sources,
-		"sources_skipped":                     skipped,
-		"library_compactions":                 tot.Compactions,
-		"cli_compactions":                     tot.CLIRuns,
-		"cli_failure_probes":                  tot.NegProbes,
+		"evaluations":                          tot.Compactions + tot.CLIRuns,
+		"distinct_nontrivial":                  len(nontriv),
+		"rule":                                 "sources: generated API programs (profiles buckets/mixed/big/structural, nesting up to 5), 'twins' programs (same-named buckets at the same depth under different parents, with and without plain keys between them in walk order, empty/inline/paged, two levels) and hand-shaped deep programs (nesting up to 6, empty buckets, empty/nil/multi-page values, inline and paged buckets, sequences up to 2^64-1 at every level), 4 page sizes, both backends; each source x limits {derived: cumulative walk size at items inside nested buckets, total, total-1, total/2+1; fixed: 1,0,65536,7,64,2,2^20,4096,3,512,2^14} through bolt.Compact (destination page size/backend varied, source opened read-only or read-write) and through the freshly built `bbolt compact`. Oracle: destination dump == source dump == model M (sequences included), Tx.Check and D clean on the destination, source SHA-256 unchanged, CLI exit 0 and expected output on success, non-zero on missing/non-database source and unwritable destination. Non-trivial: source has nested buckets and >= 5 keys; distinct = (source shape: depth, empty bucket/value, nested sequence, inline, overflow, paged; limit class; via; number of destination commits; page size).",
+		"samples":                              samples,
+		"sources":                              sources,
+		"sources_skipped":                      skipped,
+		"library_compactions":                  tot.Compactions,
+		"cli_compactions":                      tot.CLIRuns,
+		"cli_failure_probes":                   tot.NegProbes,
 		"compactions_with_intermediate_commit": tot.MultiCommit,
-		"of_which_source_nested":              tot.NestedSplit,
-		"source_keys_total":                   tot.Keys,
-		"source_buckets_total":                tot.Buckets,
-		"distinct_fingerprints_all":           len(fps),
+		"of_which_source_nested":               tot.NestedSplit,
+		"source_keys_total":                    tot.Keys,
+		"source_buckets_total":                 tot.Buckets,
+		"distinct_fingerprints_all":            len(fps),
 	}
 	return c.Finish("exploration", cov, []string{
 		"the model M of each source (built by the executor while the source was written) states the source content; the source is first read back through the API and must equal M",
